@@ -719,7 +719,7 @@ def apply_fn(fn, x):
         # square content: sqrt(s^2 * q) := s * sqrt(q) for the largest rational s with real coefficients (so that |c z| and |c| |z|
         # share one normal form)
         coeffs = list(x.num.t.values())
-        if len(coeffs) > 1 and all(c[1] == 0 for c in coeffs):
+        if (len(coeffs) > 1 or (f is not None and f > 0)) and all(c[1] == 0 for c in coeffs):
             from math import gcd
             num = 0
             den = 1
@@ -789,6 +789,19 @@ def apply_fn(fn, x):
         if f == 1:
             return Rat.const(0)
         return Rat(Poly.atom(fn_atom('log', x)))
+    if fn in ('acos', 'asin', 'atan', 'phase') and x.is_const():
+        # exact values on the axes (multiples of pi/2)
+        f = x.as_fraction()
+        table = {'acos': {1: Fr(0), 0: Fr(1, 2), -1: Fr(1)}, 'asin': {0: Fr(0), 1: Fr(1, 2), -1: Fr(-1, 2)}, 'atan': {0: Fr(0)}}
+        if fn != 'phase' and f is not None and f in table[fn]:
+            return PI * Rat.const(table[fn][f])
+        if fn == 'phase':
+            c = x.const_value()
+            re_, im_ = c[0], c[1]
+            if im_ == 0 and re_ != 0:
+                return Rat.const(0) if re_ > 0 else PI
+            if re_ == 0 and im_ != 0:
+                return PI * Rat.const(Fr(1, 2) if im_ > 0 else Fr(-1, 2))
     if fn in ('acos', 'asin', 'atan', 'ceil', 'floor', 'sign', 'clip', 'phase'):
         return Rat(Poly.atom(fn_atom(fn, x)))
     raise Undecidable('function %s' % fn)
